@@ -17,6 +17,7 @@ import (
 )
 
 type ModCfg struct {
+	Corpus string `json:"corpus,omitempty"` // stage G: a manifest the REAL generator is run on; its output joins the module as a virtual package (overlay)
 	Name string   `json:"name"`
 	Dir  string   `json:"dir"`
 	Pkgs []string `json:"pkgs"`
@@ -141,7 +142,7 @@ func cmdCheck(args []string) int {
 		if mc.Tier == "thorough" && *tier != "thorough" {
 			continue
 		}
-		m, err := loadModule(mc.Name, mc.Dir, mc.Pkgs)
+		m, err := loadModule(mc.Name, mc.Dir, mc.Pkgs, mc.Corpus)
 		if err != nil {
 			// the tree does not type-check with hooks on: nothing can be said, and saying "ok" would be wrong
 			fmt.Fprintf(os.Stderr, "load %s: %v\n", mc.Dir, err)
